@@ -267,6 +267,19 @@ func runC05(env *lib.Env, rep *lib.Report) {
 					}
 				}
 			}
+			// (3b) a column repeated in the ORDER BY list, followed by a further key: the repetition decides nothing,
+			// and every key keeps its own direction
+			for _, s3 := range [][]qSort{
+				{{qRef{"", "a"}, ""}, {qRef{"", "a"}, "DESC"}, {qRef{"", "b"}, ""}},
+				{{qRef{"", "a"}, "DESC"}, {qRef{"", "a"}, ""}, {qRef{"", "b"}, "DESC"}},
+				{{qRef{"", "c"}, ""}, {qRef{"", "c"}, "DESC"}, {qRef{"", "a"}, "DESC"}},
+				{{qRef{"", "d"}, "DESC"}, {qRef{"", "d"}, "DESC"}, {qRef{"", "b"}, ""}, {qRef{"", "a"}, "DESC"}},
+				{{qRef{"", "a"}, ""}, {qRef{"", "b"}, "DESC"}, {qRef{"", "a"}, "DESC"}, {qRef{"", "c"}, "DESC"}},
+			} {
+				for _, lo := range [][2]int{{-1, -1}, {2, 1}} {
+					r.check(qw, &qQuery{items: star, from: from, orderBy: s3, limit: lo[0], offset: lo[1], limitFirst: true}, "order-by/repeated-key", "")
+				}
+			}
 			// (5b) an alias that is also the name of another column of the table: ORDER BY <alias> means the output
 			// column of that name
 			for _, l := range [][]qItem{
